@@ -185,53 +185,11 @@ def neutralise_names(model):
     return m
 
 
-def targeted_extends_model(rng):
-    """Base type whose only children are wildcard keys with defaults keyed
-    in mixed case; derived types (chain <=2) overriding the key type in
-    every direction; all declared names are fixed points."""
-    kts = family.KEYTYPES
-
-    def wild(kind, attr):
-        ks = rng.sample(["Wild", "wild", "Zed", "w2", "ALPHA"], 3)
-        dfl = [[k, rng.choice(["a", "b", "c"])] for k in ks]
-        return {"kind": kind, "name": "+", "attribute": attr,
-                "datatype": "string", "required": False, "handler": None,
-                "default": None, "defaults": dfl}
-    k1, k2, k3 = (rng.choice(kts) for _ in range(3))
-    types = [
-        {"kind": "section", "name": "tb", "keytype": k1, "datatype": None,
-         "extends": None, "implements": None,
-         "children": [wild(rng.choice(["key", "multikey"]), "wmap")]},
-        {"kind": "section", "name": "td", "keytype": k2, "datatype": None,
-         "extends": "tb", "implements": None, "children": []},
-        {"kind": "section", "name": "te",
-         "keytype": k3 if rng.random() < 0.6 else None, "datatype": None,
-         "extends": "td", "implements": None, "children": []},
-    ]
-    # a single wildcard key must not have colliding defaults under any of
-    # the key types involved
-    w = types[0]["children"][0]
-    if w["kind"] == "key":
-        seen = set()
-        keep = []
-        for k, v in w["defaults"]:
-            if k.lower() in seen:
-                continue
-            seen.add(k.lower())
-            keep.append([k, v])
-        w["defaults"] = keep
-    children = [{"kind": "multisection", "name": "*", "type": t,
-                 "required": False, "handler": None,
-                 "attribute": "s_" + t} for t in ("tb", "td", "te")]
-    return {"keytype": "basic-key", "datatype": None, "handler": None,
-            "children": children, "types": types}
-
-
 def run_extends(ctx, i):
     rng = ctx.rng("extends", i)
     override = rng.random() < 0.25
     if i % 4 == 3:
-        model = targeted_extends_model(rng)
+        model = family.targeted_extends_model(rng)
     else:
         for _ in range(20):
             model = family.random_model(rng, handlers=False,
@@ -520,10 +478,12 @@ def run_components(ctx, i, space):
                 t["children"] = [dict(ta[0]["children"][0])]
     space.write(pa, {"component.xml": packages.component_xml(
         ta, base, [pb] if cyclic else [])})
-    space.write(pb, {"component.xml": packages.component_xml(tb, base,
-                                                             [pa])})
-    space.write(pc, {"component.xml": packages.component_xml(tc, base,
-                                                             [pa, pb])})
+    # the default file name is sometimes spelled out: the same component
+    ef = rng.choice([0, 0, 1, 2])
+    space.write(pb, {"component.xml": packages.component_xml(
+        tb, base, [pa], explicit_file=ef)})
+    space.write(pc, {"component.xml": packages.component_xml(
+        tc, base, [pa, pb], explicit_file=ef)})
     # slots so the component types can be used
     m = copy.deepcopy(model)
     for ai, a in enumerate(abstracts):
@@ -532,7 +492,10 @@ def run_components(ctx, i, space):
                               "attribute": "cslot_%d" % ai})
     imports = rng.choice([[pc], [pa, pc], [pc, pb, pa], [pb, pb, pc],
                           [pa, pa], [pc, pc, pb]])
-    head = "".join("<import package='%s'/>" % p for p in imports)
+    head = "".join(
+        ("<import package='%s' file='component.xml'/>" % p)
+        if ef and (j + ef) % 2 == 0 else "<import package='%s'/>" % p
+        for j, p in enumerate(imports))
     x1 = family.render_xml(m, abstract_import=(base, "abstract.xml"),
                            head_xml=head)
     # expansion: everything defined in place once, in definition order
